@@ -117,6 +117,7 @@ CONFIGS = {
     "w32":     (["-DSKINNY_C_VERIF_64BIT=0"], 1, 1),
     "noua":    (["-DSKINNY_C_VERIF_UNALIGNED=0"], 1, 1),
     "w32noua": (["-DSKINNY_C_VERIF_64BIT=0", "-DSKINNY_C_VERIF_UNALIGNED=0"], 1, 1),
+    "no256":   (["-DSKINNY_C_VERIF_VEC256=0"], 1, 0),          # only the 128-bit SIMD back end compiled in (VEC256_CFLAGS empty)
     "nosimd":  (["-DSKINNY_C_VERIF_VEC128=0", "-DSKINNY_C_VERIF_VEC256=0"], 0, 0),
     "nosimd32": (["-DSKINNY_C_VERIF_VEC128=0", "-DSKINNY_C_VERIF_VEC256=0", "-DSKINNY_C_VERIF_64BIT=0"], 0, 0),
     "nosimdnoua": (["-DSKINNY_C_VERIF_VEC128=0", "-DSKINNY_C_VERIF_VEC256=0", "-DSKINNY_C_VERIF_UNALIGNED=0"], 0, 0),
